@@ -344,11 +344,65 @@ def run(ctx):
     ctx.corr_cases = len(owners)
     ctx.extra["correspondence_cases"] = len(owners)
     ctx.extra["correspondence_mismatches"] = mism
+    corrector_glue(ctx)
     if ctx.thorough() and not ctx.violations:
         end_to_end(ctx)
     ctx.rule = ("scripted corrector outcome sequences over {Accept, Reject, raise}: exhaustive up to length 5 (6 thorough, thinned) for 8 "
                 "configurations + random long histories, natural and secant steppers, random dyadic steps/bounds/targets; distinct by full "
                 "configuration; non-trivial = at least 2 calls and one accept")
+
+
+def corrector_glue(ctx):
+    """the interface's own corrector wrapper (`_build_corrector`): a member is the corrected state of ITS prediction, carries
+    period = 2*half_period of ITS correction, and an unconverged correction is reported as such"""
+    from hiten.algorithms.continuation.interfaces import _OrbitContinuationInterface
+    from hiten.algorithms.continuation.types import _ContinuationProblem
+    rng = ctx.rng
+    calls = []
+
+    class FakeOrbit:
+        def __init__(self, libration_point=None, initial_state=None):
+            self.libration_point = libration_point
+            self.initial_state = np.asarray(initial_state, dtype=float)
+            self.period = None
+
+        def correct(self, options=None, **kw):
+            k = len(calls)
+            delta = np.array([((k + 1) % 3) / 64.0, 0.0, -(k % 2) / 32.0, 0.0, 1.0 / 128.0, 0.0])
+            half = 1.25 + k / 16.0
+            conv = (k % 4 != 3)
+            calls.append((self.initial_state.copy(), delta, half, conv))
+            return types.SimpleNamespace(x_corrected=self.initial_state + delta, half_period=half, converged=conv,
+                                         iterations=3, residual_norm=0.0)
+
+    seed = FakeOrbit("LP", [0.5, 0.0, 0.25, 0.0, 1.0, 0.0])
+    seed.period = 7.0
+    prob = _ContinuationProblem(initial_solution=seed, parameter_getter=lambda v: np.asarray(v)[[0]], target=np.array([[0.0], [9.0]]),
+                                step=np.array([0.125]), max_members=4, max_retries_per_step=1,
+                                representation_of=lambda o: np.asarray(getattr(o, "initial_state", o), dtype=float),
+                                state_indices=np.array([0]))
+    intf = _OrbitContinuationInterface()
+    corr = intf._build_corrector(prob)
+    for i in range(8):
+        pred = np.array([0.5 + i / 8.0, 0.0, 0.25, 0.0, 1.0 - i / 16.0, 0.0])
+        out = corr(pred)
+        start, delta, half, conv = calls[-1]
+        x, res, ok = out[0], out[1], out[2]
+        aux = out[3] if len(out) > 3 else {}
+        ctx.case(("corrector-glue", i), nontrivial=True, kind="corrector-glue")
+        prob_txt = None
+        if not np.array_equal(start, pred):
+            prob_txt = "the correction was not started from the prediction"
+        elif not np.array_equal(np.asarray(x, dtype=float), pred + delta):
+            prob_txt = "the member is not the corrected state of its prediction"
+        elif bool(ok) != conv:
+            prob_txt = "convergence flag %r reported for a correction that %s" % (ok, "converged" if conv else "did not converge")
+        elif not isinstance(aux, dict) or aux.get("period") != 2.0 * half:
+            prob_txt = "member period %r is not 2*half_period = %r of its own correction" % (aux.get("period") if isinstance(aux, dict) else aux, 2.0 * half)
+        if prob_txt:
+            ctx.violation("clause:corrector-glue", prob_txt, {"prediction": pred.tolist(), "corrected": np.asarray(x).tolist(), "half_period": half,
+                                                               "converged": conv, "returned_flag": bool(ok), "aux": repr(aux)})
+            return
 
 
 def end_to_end(ctx):
